@@ -7,6 +7,17 @@ Lemmas/CatalogScan.lean (T1, T6).
 
 Model: Model/Catalog.lean (hand-written, literal after reading.py; tied to
 the code by the correspondence of tools/props/C18.py).
+
+Continued in Props/C18c.lean (the data part of one restart: selection of the
+variable considered, its lines end to end) and Props/C18b.lean (the `.par`
+parser of `parameters()`).
+
+NOT covered by a theorem (modelled and compared with the code only): the
+choice of the representative file of a restart (`foundFile`) says nothing
+about the other files of the restart; `read_iterations` for variable names
+with quotes / commas / non-printable characters and for paths with a line
+break (T2 hypotheses, necessity witness below); the overall merge when two
+equal-stride ranges leave a gap (T6 hypothesis, witness below).
 -/
 import AurelVerif.Lemmas.CatalogScan
 
@@ -163,18 +174,80 @@ theorem stable_prefix (T : Tables) (S : Sim) (extra : List RestartDir) (ents : L
 
 /-! ## T1 — the per-restart summary is what is on disk -/
 
-/-- At a refinement level whose keys carry, in any order, the iterations of an
-arithmetic progression `a, a+d, …` with `n+2` terms, the catalogue line is
-`np.arange(a, a+(n+1)d, d)`; a level with one iteration is reported as that
-iteration.  The progression hypothesis is necessary: the code reports
-`diff[0]` whatever the other differences are. -/
-theorem scan_level_faithful (fkeys : List (Str × KeyInfo)) (rl : Nat)
-    (hc : ∀ k ∈ keysAt fkeys rl, k.2.c = none) :
-    (∀ a d n, ((keysAt fkeys rl).map fun k => k.2.it).Perm (apList a d (n + 2)) →
+/-- The keys of level `rl` are ANY list of keys (several chunks ` c=<n>`, one
+unnumbered chunk, several variables, repetitions, any order; the number of
+chunks may change from one iteration to the next = regrid).  If, as a SET, the
+iterations they carry (`itsAt`) are the arithmetic progression `a, a+d, …` with
+`n+2` terms and stride `d > 0`, the catalogue line is
+`np.arange(a, a+(n+1)d, d)`; if they all carry one iteration `x`, the line is
+`[x]`; a level without keys has no line.  No hypothesis on chunk suffixes and
+none on repetitions (repository fix efae800: the catalogue takes the set of the
+iterations of all keys of the level).  The progression hypothesis is
+necessary: the code reports `diff[0]` whatever the other differences are
+(`scan_level_stride_is_first_difference`). -/
+theorem scan_level_faithful (fkeys : List (Str × KeyInfo)) (rl : Nat) :
+    (∀ a d n, 0 < d → (∀ x, x ∈ itsAt fkeys rl ↔ x ∈ apList a d (n + 2)) →
       levelOne fkeys rl = .ok (some (.arange rl a (a + (n + 1) * d) d))) ∧
-    (∀ x, ((keysAt fkeys rl).map fun k => k.2.it) = [x] → levelOne fkeys rl = .ok (some (.single rl x))) :=
-  ⟨fun a d n h => scan_level_faithful_lemma fkeys rl a d n hc h,
-   fun x h => scan_level_single_lemma fkeys rl x hc h⟩
+    (∀ x, keysAt fkeys rl ≠ [] → (∀ k ∈ keysAt fkeys rl, k.2.it = x) →
+      levelOne fkeys rl = .ok (some (.single rl x))) ∧
+    (keysAt fkeys rl = [] → levelOne fkeys rl = .ok none) :=
+  ⟨fun a d n hd h => scan_level_faithful_lemma fkeys rl a d n hd h,
+   fun x hne h => scan_level_single_lemma fkeys rl x hne h,
+   scan_level_none_lemma fkeys rl⟩
+
+/-- The former statement (one key per iteration: the list of iterations is a
+permutation of the progression) is the special case without repetitions. -/
+theorem scan_level_faithful_perm (fkeys : List (Str × KeyInfo)) (rl a d n : Nat) (hd : 0 < d)
+    (h : (itsAt fkeys rl).Perm (apList a d (n + 2))) :
+    levelOne fkeys rl = .ok (some (.arange rl a (a + (n + 1) * d) d)) :=
+  scan_level_faithful_lemma fkeys rl a d n hd (fun _ => h.mem_iff)
+
+/-- The line of a level is a function of the SET of iterations present at
+that level: two files (or the same level before and after chunks, variables or
+duplicates are added) with the same set give the same line. -/
+theorem scan_level_depends_on_set_only (f₁ f₂ : List (Str × KeyInfo)) (rl : Nat)
+    (h : ∀ x, x ∈ itsAt f₁ rl ↔ x ∈ itsAt f₂ rl) : levelOne f₁ rl = levelOne f₂ rl :=
+  levelOne_congr f₁ f₂ rl h
+
+/-- The per-level block of `iterations()` cannot raise (the `TypeError` of a
+level going from one unnumbered chunk to several is gone), for any keys. -/
+theorem scan_levels_never_raise (fkeys : List (Str × KeyInfo)) :
+    (∀ rl, ∃ o, levelOne fkeys rl = .ok o) ∧ (∀ rlmax, (levelLines fkeys rlmax).2 = none) :=
+  ⟨levelOne_never_raises fkeys, levelLines_never_raises fkeys⟩
+
+/-- keys of one level, regridded: iterations 0, 2, 4 in two chunks, 6, 8 in
+three; a second variable on top; level 1 goes from ONE UNNUMBERED chunk (it 0)
+to two chunks (it 1) -/
+def exRegrid : List (Str × KeyInfo) :=
+  let mk (v : Str) (it rl : Nat) (c : Option Nat) : Str × KeyInfo :=
+    let k : KeyInfo := ⟨['T'], v, it, 0, false, some rl, c⟩
+    (formatKey k, k)
+  ([0, 2, 4].map fun it => [mk ['a'] it 0 (some 0), mk ['a'] it 0 (some 1), mk ['d', 'a'] it 0 (some 0)]).flatten
+    ++ ([6, 8].map fun it => [mk ['a'] it 0 (some 0), mk ['a'] it 0 (some 1), mk ['a'] it 0 (some 2)]).flatten
+    ++ [mk ['a'] 0 1 none, mk ['a'] 1 1 (some 0), mk ['a'] 1 1 (some 1)]
+
+/-- non-vacuity of `scan_level_faithful` on `exRegrid` (hypotheses hold, with
+chunks, a regrid, repetitions and two variables), and the conclusions computed -/
+example : (∀ x, x ∈ itsAt exRegrid 0 ↔ x ∈ apList 0 2 (3 + 2)) ∧
+    levelOne exRegrid 0 = .ok (some (.arange 0 0 8 2)) ∧
+    levelOne exRegrid 1 = .ok (some (.arange 1 0 1 1)) ∧
+    levelLines exRegrid 1 = ([.arange 0 0 8 2, .arange 1 0 1 1], none) := by
+  refine ⟨?_, by decide +kernel, by decide +kernel, by decide +kernel⟩
+  have h1 : itsAt exRegrid 0 = [0, 0, 0, 2, 2, 2, 4, 4, 4, 6, 6, 6, 8, 8, 8] := by decide +kernel
+  have h2 : apList 0 2 (3 + 2) = [0, 2, 4, 6, 8] := by decide +kernel
+  intro x
+  rw [h1, h2]
+  simp only [List.mem_cons, List.not_mem_nil, or_false]
+  omega
+
+example : keysAt exRegrid 2 = [] := by decide +kernel
+
+/-- The progression hypothesis is necessary: for the set {0, 2, 8} the line
+is `np.arange(0, 8, 2)`, which also describes 4 and 6. -/
+theorem scan_level_stride_is_first_difference :
+    levelOne ([0, 8, 2].map fun it => (formatKey ⟨['T'], ['a'], it, 0, false, some 0, none⟩,
+      (⟨['T'], ['a'], it, 0, false, some 0, none⟩ : KeyInfo))) 0 = .ok (some (.arange 0 0 8 2)) := by
+  decide +kernel
 
 /-- The keys of ALL levels of a file are given (`fkeys`); the line of level
 `rl` depends only on the keys whose parsed `rl` field is exactly `rl`
